@@ -125,10 +125,16 @@ CHECKS = {
               "2^(bits-1)-1, random}, msm sizes, every pattern of scalar bounds, on-/off-curve and off-subgroup coordinates, "
               "and checks that the model's group law is consistent with naming points by discrete logarithms. The driver "
               "replays them into the standard library's chips under MockProver with inputs and outputs exposed as public "
-              "inputs; Ecc_Trace decides completeness and soundness of every run, also under tamper plans (hook H1)."),
+              "inputs; Ecc_Trace decides completeness and soundness of every run, also under tamper plans (hook H1). Hash to curve: "
+              "HashToCurve.tla derives the Montgomery and Weierstrass models of Jubjub from its Edwards coefficients, defines the "
+              "Shallue-van de Woestijne map of RFC 9380 with constants derived from the curve and Z (square roots by Tonelli-Shanks "
+              "in the model), the rational maps to Montgomery and Edwards form, cofactor clearing, and hash_to_curve as the sum of "
+              "the images of two sponge squeezes; the parameters the code publishes (Z, A, B, J, K, c1..c4) must be the derived ones "
+              "and Z must meet the RFC's criteria; map_to_curve (boundary, random and the exceptional inputs u^2 g(Z) = +-1) and "
+              "hash_to_curve (0..8 inputs) run off-circuit and in-circuit with inputs and point exposed, honest and tampered."),
         design_ref="DESIGN.md 4/C06",
-        note=("Bounded adversary (single consistent fault, sampled indices, cheap operations only on quick); hash-to-curve "
-              "and Jubjub low-order points are not covered; msm sizes 1..3 on quick, 1..8 on thorough. Two open known findings "
+        note=("Bounded adversary (single consistent fault, sampled indices, cheap operations only on quick); "
+              "Jubjub low-order points are not covered; msm sizes 1..3 on quick, 1..8 on thorough. Two open known findings "
               "(BLS12-381 point_from_coordinates without subgroup check; mul_by_constant on the identity with a constant "
               "above 128 bits), see known_findings.json."),
         technique="TLA+/TLC: executable Curve model + EccOps semantics generate scenarios; recorded gadget runs (honest and tampered via H1) validated as traces",
